@@ -5,6 +5,10 @@ ENGINES = [
      "kind_free_text": "the real library (dev profile, overflow checks on, --cfg similari_verif) driven by generated workloads under reference-model / differential / invariant monitors; one binary per property, sharded over processes by ./check"},
     {"name": "schedule-controller", "path": "harness/src/sched.rs", "serves_properties": ["C05", "C06", "C10"],
      "kind_free_text": "callback installed at the guarded schedule points: recorder, seeded delay plans, gate scripts forcing worker command orders"},
+    {"name": "valgrind-memcheck", "path": "engines.py", "serves_properties": ["C18"],
+     "kind_free_text": "PYTHONMALLOC=malloc valgrind over python3 + similari.so on a slice of the C18 scripts; only report blocks with a similari frame count (thorough tier)"},
+    {"name": "tsan", "path": "engines.py", "serves_properties": ["C06", "C10"],
+     "kind_free_text": "-Zsanitizer=thread -Zbuild-std build of the C06 / C10 monitor binaries (thorough tier)"},
     {"name": "miri", "path": "engines.py", "serves_properties": ["C05", "C06", "C09", "C10", "C16"],
      "kind_free_text": "cargo +nightly miri run of the same monitor binaries in --small mode over many scheduler seeds: UB/data-race detector and independent schedule explorer (thorough tier)"},
 ]
@@ -109,5 +113,11 @@ TEXTS = {
         "technique": "runtime differential + exactly-once history checker + quiescence-based deadlock detector under delay/stall plans at the batch and voting schedule points, with both allowed retrieval disciplines; Miri many-seeds and TSan (thorough)",
         "level_text": "Hundreds (quick) to thousands (thorough) of batch sequences over 1..5 scenes, 1..4 x 1..4 workers, five schedule families incl. targeted stalls at vote.result.send / batch.scene.dispatched / vote.monitor.dec, same-thread and consumer-thread retrieval (next batch submitted while the previous one is still being drained); per scene the batch tracker must refine Sort / VisualSort; each batch must deliver exactly one in-order result per scene; predict / get / Drop must complete - a hang is decided by observing quiescence (all threads sleeping, no CPU time, no hook events for 4 s), not by a timeout.",
         "level_note": "Absence of deadlock is claimed only for the observed schedules; the explicit-state exploration named in the property's quantifier belongs to another technique family and is not done (DESIGN.md section 8).",
+    },
+    "C18": {
+        "engine": "python-rust-differential",
+        "technique": "runtime differential: one generated JSON API script, two interpreters (CPython + the cdylib built from the current tree vs a Rust driver on the wrapped API), field-by-field trace comparison with a per-method coverage table; valgrind memcheck on CPython + similari.so (thorough)",
+        "level_text": "160 (quick) to 5000 (thorough) generated scripts of ~40..150 calls covering every class, constructor, static method, method, getter and setter registered in the module (126 coverage keys, each required to be exercised); constructor keyword arguments are randomly omitted so that the documented defaults are compared with what the wrapper applies; option setters are checked through the Debug representation of the options object.",
+        "level_note": "The Rust driver encodes the intended meaning of each binding (documented defaults included) and is itself trusted. Batch-tracker ids and shard distributions are schedule dependent and compared after canonical renaming / as sums.",
     },
 }
